@@ -89,6 +89,12 @@ pub fn check_bytes(run: &Run, b: &[u8]) -> &'static str {
                     run.violation("C12", format!("hash-differs/op={}", first_bad_opcode(b)), format!("hash from bytes/ops differ for {}", hx(b)), replay.clone());
                 }
             }
+            // the decoded program equals the program rebuilt from its own bytes / instructions, also after it has been hashed
+            if let (Ok(Ok(again)), Ok(rebuilt)) = (guard(|| Covenant::from_bytes(b)), guard(|| Covenant::from_ops(&c.to_ops()))) {
+                if again != c || rebuilt != c {
+                    run.violation("C12", format!("program-equality/op={}", first_bad_opcode(b)), format!("a program decoded from {} is not equal to a fresh decode / rebuild of itself (after hash())", hx(b)), replay.clone());
+                }
+            }
             let w1 = guard(|| c.weight());
             let w2 = guard(|| from_ops.weight());
             let w3 = guard(|| melvm::covenant_weight_from_bytes(b));
